@@ -372,7 +372,7 @@ fn largest_square_less_than(delta: usize) -> usize {
 
 //Express the natural number `delta` as a sum of four integer squares,
 // i.e `delta = a^2 + b^2 + c^2 + d^2` using Lagrange's four-square theorem
-pub fn four_squares(delta: i32) -> ClResult<HashMap<String, BigNumber>> {
+pub fn four_squares(delta: i64) -> ClResult<HashMap<String, BigNumber>> {
     trace!("Helpers::four_squares: >>> delta: {:?}", delta);
 
     if delta < 0 {
